@@ -16,10 +16,12 @@ package coreutil
 //@ ensures [punctual-token-not-judged-late] imp(ok && w.overdueDuration >= 2000000000, w.lastNow - next >= 2000000000)
 //@ ensures [no-token-no-overdue] imp(!ok, w.overdueDuration == 0)
 //@ ensures [one-token-per-success] imp(ok, ev(token) == old(ev(token)) + 1)
+//@ ensures [no-token-lost-unless-cancelled] imp(!ok && !done(ctx), ev(token) == old(ev(token)))
 //@ ensures [one-token-at-most] ev(token) - old(ev(token)) <= 1 && ev(token) >= old(ev(token))
 //@ modifies w.overdueDuration, w.lastNow, w.timer, leftOf[w.sched], timerDeadline, ev(token)
 
 //@ func (w *Waiter) IsSlowDown
+//@ modifies nothing
 //@ props C04
 //@ ensures [2s-window] imp(ok, w.overdueDuration >= 2000000000)
 //@ ensures imp(!ok && !done(ctx), w.overdueDuration < 2000000000)
@@ -28,3 +30,8 @@ package coreutil
 //@ props C04 C03
 //@ ensures imp(!ok, leftOf[w.sched] != 0)
 //@ modifies leftOf[w.sched]
+
+//@ func NewWaiter
+//@ modifies nothing
+//@ props C03 C04 C12
+//@ ensures fresh(result) && result.sched == sched && result.lastNow == 0 && result.overdueDuration == 0 && result.timer == nil
